@@ -598,7 +598,7 @@ Proof. intros ks vs tag s. unfold dec_map. solveE; destruct ks; solveE. Qed.
 Lemma allR_dec_struct : forall nm f tag s, allR s (dec_struct orc registry fx rv rt lf nm f tag s).
 Proof. intros nm f tag s. unfold dec_struct. solveE. Qed.
 Lemma allR_dec_ptr : forall e tag s, allR s (dec_ptr orc rt e tag s).
-Proof. intros e tag s. unfold dec_ptr. solveE. Qed.
+Proof. intros e tag s. unfold dec_ptr. solveE. destruct (ptr_core e). solveE. Qed.
 
 Lemma allR_dec_tag_body : forall sh tag s, allR s (dec_tag_body orc registry fx rv rt lf sh tag s).
 Proof.
